@@ -421,6 +421,46 @@ def _c04_addons(mon, s, cfg):
 
 # -------------------------------------------------------------------------------------------------------------- C16
 
+def _c16_adjustments(mon, s, cfg):
+    """ITC lowers capital cost by exactly rate x cost; grants, incentives, fees, tax relief enter by their amounts."""
+    ec, wb = s.economics, s.wellbores
+    if cfg['eclass'] != 'Economics':
+        return
+    pt, L = cfg['ptype'], cfg['life']
+    if ec.totalcapcost.Valid:
+        pre = float(ec.totalcapcost.value)
+    else:
+        pre = sum(float(getattr(ec, k).value) for k in ('Cexpl', 'Cwell', 'Cstim', 'Cgath', 'Cplant', 'Cpiping'))
+        if pt == 7:
+            pre += float(ec.dhdistrictcost.value)
+    itc = float(ec.RITC.value) * pre if ec.RITC.Provided else 0.0
+    if ec.RITC.Provided:
+        mon.eq('itc', float(ec.RITCValue.value), itc, rel=1e-9, abs_=1e-12, mechanism='C16/itc-not-rate-times-cost',
+               rate=float(ec.RITC.value), cost=pre)
+    want = pre - itc + float(ec.FlatLicenseEtc.value) - float(ec.OtherIncentives.value) - float(ec.TotalGrant.value)
+    mon.eq('capital-adjustments', float(ec.CCap.value), want, rel=1e-9, abs_=1e-10,
+           mechanism='C16/capital-cost-adjustments-not-by-stated-amounts', itc=itc, fees=float(ec.FlatLicenseEtc.value),
+           incentives=float(ec.OtherIncentives.value), grants=float(ec.TotalGrant.value))
+    if any(float(getattr(ec, k).value) != 0 for k in ('FlatLicenseEtc', 'OtherIncentives', 'TotalGrant')) or ec.RITC.Provided:
+        mon.note('c16-capital-adjustment-active')
+    if ec.oamtotalfixed.Valid:
+        base = float(ec.oamtotalfixed.value)
+    else:
+        base = sum(float(getattr(ec, k).value) for k in ('Coamwell', 'Coamplant', 'Coamwater'))
+        if pt == 5:
+            base += float(ec.chilleropex.value)
+        if pt == 7:
+            base += float(ec.dhdistrictoandmcost.value)
+    redrill = int(wb.redrill.value) if wb.has('redrill') and wb.redrill.value is not None else 0
+    if redrill > 0:
+        base += (float(ec.Cwell.value) + float(ec.Cstim.value)) * redrill / L
+    mon.eq('opex-adjustments', float(ec.Coam.value), base + float(ec.AnnualLicenseEtc.value) - float(ec.TaxRelief.value),
+           rel=1e-9, abs_=1e-10, mechanism='C16/annual-cost-adjustments-not-by-stated-amounts',
+           fees=float(ec.AnnualLicenseEtc.value), relief=float(ec.TaxRelief.value))
+    if float(ec.AnnualLicenseEtc.value) != 0 or float(ec.TaxRelief.value) != 0:
+        mon.note('c16-annual-adjustment-active')
+
+
 def c16_run(mon, s):
     """Schedules and adjustments as they appear inside a full run (the builders themselves are exercised directly and
     exhaustively by gxv.props.c16)."""
@@ -428,6 +468,7 @@ def c16_run(mon, s):
     ec = s.economics
     if cfg['eclass'] not in ('Economics', 'SBTEconomics'):
         return
+    _c16_adjustments(mon, s, cfg)
     cy, L = cfg['cy'], cfg['life']
     infl = float(ec.RINFL.value)
     dur = int(ec.PTCDuration.value)
